@@ -168,9 +168,6 @@ theorem load_linear_shape (rs : Repo) (b : Branch) (depth : Int) (g : Hdr)
       pruneBranch (branchOfFile (rootFile b)) ((branchOfFile (rootFile b)).height - depth - (branchOfFile (rootFile b)).prunedLowest)
       else branchOfFile (rootFile b)) = loadedRoot b depth := rfl
   simp only [hroot]
-  have hlong : longestOf [loadedRoot b depth] [0] = some 0 := by
-    simp [longestOf, longestOf.go, hlast]
-  rw [hlong]
   simp only [sortByPH, List.foldl_cons, List.foldl_nil, insertByPH]
   have hlph : (loadedRoot b depth).parentHeight = -1 := by
     unfold loadedRoot
@@ -179,8 +176,16 @@ theorem load_linear_shape (rs : Repo) (b : Branch) (depth : Int) (g : Hdr)
     · unfold pruneBranch; split <;> exact hph
     · exact hph
   unfold loadLinkStep Repo.br
-  simp only [List.getElem?_cons_zero, Option.getD_some, hlph, ↓reduceIte, List.nil_append]
+  simp only [List.getElem?_cons_zero, Option.getD_some, hlph, ↓reduceIte, List.nil_append, List.isEmpty_cons,
+    Bool.false_eq_true]
+  have hlong : longestOf [loadedRoot b depth] [0] = some 0 := by
+    simp [longestOf, longestOf.go, hlast]
+  rw [hlong]
   rfl
+
+end BRV.Repo
+
+namespace BRV.Repo
 
 /-! ### height maps built by folding `set` over a header list -/
 
